@@ -384,6 +384,18 @@ class C08(Engine):
         for spec in shrink.shrink_spec(case['spec'], keep=keep):
             yield dict(case, spec=spec)
 
+    def narrow_wall_hang(self, case, hangs):
+        """Find one message whose decode alone does not return (each probe
+        runs in its own subprocess)."""
+
+        for message in case['messages']:
+            candidate = dict(case, messages=[message], memory=False)
+
+            if hangs(candidate):
+                return candidate
+
+        return case
+
     def finish(self, tier, agg):
         fired = {k[len('fault-'):]: v for k, v in agg.stats.items()
                  if k.startswith('fault-')}
